@@ -866,6 +866,10 @@ func (x *Exec) step(f *Frame, st *State, ins ssa.Instruction) bool {
 		case *PtrVal: // pointer to array
 			f.regs[in] = &PtrVal{Obj: pv.Obj, Path: append(append([]pathElem(nil), pv.Path...), pathElem{isIdx: true, idx: idx})}
 		case *Term: // slice value: element address = a fresh cell initialised with the element (read-only use)
+			if pv.Sort == SCoins {
+				f.regs[in] = x.coinsElemCell(f, st, pv, idx, in)
+				break
+			}
 			if !isSliceSort(pv.Sort) {
 				x.errorf("IndexAddr on term of sort %s", pv.Sort)
 				return false
@@ -960,9 +964,14 @@ func (x *Exec) step(f *Frame, st *State, ins ssa.Instruction) bool {
 		}
 		switch sv := v.(type) {
 		case *PtrVal: // slicing a local array
-			arr, ok := x.load(st, sv).(*GoArray)
+			loaded := x.load(st, sv)
+			arr, ok := loaded.(*GoArray)
 			if ok && lo == nil && hi == nil {
 				f.regs[in] = &GoSlice{Elems: arr.Elems}
+				break
+			}
+			if bt, isT := loaded.(*Term); isT && bt.Sort == SBytes {
+				f.regs[in] = x.sliceTerm(f, st, bt, lo, hi, in)
 				break
 			}
 			x.errorf("unsupported slice of pointer")
@@ -977,7 +986,7 @@ func (x *Exec) step(f *Frame, st *State, ins ssa.Instruction) bool {
 		case *Term:
 			f.regs[in] = x.sliceTerm(f, st, sv, lo, hi, in)
 		case *KeyVal:
-			f.regs[in] = x.freshVal(st, in.Type(), "keyslice")
+			f.regs[in] = x.sliceKey(st, sv, lo, hi, in)
 		case *EncVal:
 			f.regs[in] = x.freshVal(st, in.Type(), "slice")
 		case *BufVal:
@@ -1453,4 +1462,50 @@ func (x *Exec) oblige(st *State, kind, label, site string, goal *Term, src strin
 	}
 	o := &Obligation{Unit: x.unit.Name, Kind: kind, Label: label, Site: site, Assumes: append([]*Term(nil), st.pc...), Goal: goal, Src: src, Inputs: x.inputs}
 	x.obls = append(x.obls, o)
+}
+
+// sliceKey: slicing a complete store key at a declared field boundary yields that key component.
+func (x *Exec) sliceKey(st *State, kv *KeyVal, lo, hi *Term, in *ssa.Slice) Val {
+	if !kv.Partial && kv.Fam.Decl != nil && kv.Fam.Decl.Slices != nil {
+		spec := ""
+		if lo != nil && lo.IsLit() {
+			spec += lo.Lit.String()
+		}
+		spec += ":"
+		if hi != nil && hi.IsLit() {
+			spec += hi.Lit.String()
+		}
+		if idx, ok := kv.Fam.Decl.Slices[spec]; ok && idx < len(kv.Args) {
+			a := kv.Args[idx]
+			want := SortOf(in.Type())
+			if want == a.Sort || want == nil {
+				return a
+			}
+			if want == SBytes && a.Sort == SStr {
+				return bytesOfStr(a)
+			}
+			if want == SBytes && a.Sort == SInt {
+				return &EncVal{Enc: "be64", V: a, Nil: False}
+			}
+		}
+	}
+	x.errorf("slice of store key of family %s at an undeclared boundary (%s)", kv.Fam.Name, x.pos(in.Pos()))
+	return x.freshVal(st, in.Type(), "keyslice")
+}
+
+// coinsElemCell: coins[i] on the abstract coins value (Array Str Int): the i-th listed coin.
+func (x *Exec) coinsElemCell(f *Frame, st *State, c *Term, idx *Term, in *ssa.IndexAddr) Val {
+	ln := UF("coins_len", SInt, c)
+	st.assume(Ge(ln, IntLit(0)))
+	x.panicSite(f, st, Or(Lt(idx, IntLit(0)), Ge(idx, ln)), "index out of range at "+x.pos(in.Pos()))
+	d := UF("coins_denom_at", SStr, c, idx)
+	amt := Select(c, d)
+	st.assume(Ge(amt, IntLit(0)))
+	if idx.IsLit() && idx.Lit.Sign() == 0 {
+		// a one-coin list has no other denomination
+		st.assume(Implies(Eq(ln, IntLit(1)), Eq(c, Store(ZeroOf(SCoins), d, amt))))
+	}
+	o := x.newObj(in.Type().(*types.Pointer).Elem(), "coin")
+	st.mem[o] = Con(SCoin, d, amt)
+	return &PtrVal{Obj: o}
 }
